@@ -26,6 +26,7 @@ func main() {
 		graph    = flag.String("graph", "vta", "call graph: vta|cha")
 		debugFn  = flag.String("debug", "", "pkg:Func — evaluate symbolically and dump returns and heap (development aid)")
 	)
+	decodeDbg := flag.Int("decode", -1, "format code: evaluate the hsms item decoder on an item of that format, width and count given as arguments (development aid)")
 	lexDbg := flag.String("lex", "", "state function name: evaluate it on the input given as first argument (development aid)")
 	flag.Parse()
 	if pf := os.Getenv("SC_PROF"); pf != "" {
@@ -38,6 +39,18 @@ func main() {
 				f.Close()
 			}()
 		}
+	}
+	if *decodeDbg >= 0 {
+		prog, err := Load(*repo, nil)
+		if err != nil {
+			fmt.Println(err)
+			os.Exit(2)
+		}
+		k, _ := strconv.Atoi(flag.Arg(0))
+		n, _ := strconv.Atoi(flag.Arg(1))
+		res, ok := decodeItemBytes(prog, *decodeDbg, int64(k)*int64(n), flag.NArg() > 2)
+		fmt.Printf("ok=%v fac=%s args=%v elems=%v end=%s success=%v\n", ok, res.fac, res.args, res.elems, res.endPos, res.success)
+		return
 	}
 	if *lexDbg != "" {
 		prog, err := Load(*repo, nil)
